@@ -48,6 +48,7 @@ func registerStd(e *Engine) {
 	})
 	e.reg("time.runtimeNano", func(e *Engine, st *State, cc *CallCtx) (Value, bool) { return c.Const(1000000000, 64), true })
 	e.reg("time.registerLoadFromEmbeddedTZData", nop)
+	e.reg("time.initLocal", nop) // the local time zone is UTC (an unset zone list means UTC)
 	// sort.Slice / sort.SliceStable (reflection-based in std): all pairwise less(i,j) are evaluated on the
 	// unmodified slice (summarised calls), the order is decided by branching on them, and the permutation is
 	// applied in one step at the end (stable insertion order; equal elements keep their order).
